@@ -295,3 +295,64 @@ def replay_c02(ctx, case):
             ctx.violation("replay", f"still fails: {names}", dict())
         return ctx.finish()
     return _replay(ctx, case, "C02", "Trace_Doc_C02.cfg")
+
+
+# ------------------------------------------------------------------------------------------ C17
+def check_c17(ctx):
+    core.build_harness()
+    quick = ctx.tier == "quick"
+    nsim = 500 if quick else 8000
+    docs = []
+    for cfg, n in [("MC_Doc_var_sim_ext.cfg", nsim), ("MC_Doc_var_sim_canon.cfg", nsim // 2), ("MC_Doc_var_sim_extempty.cfg", nsim // 4)]:
+        docs += [d for d in gen_docs(ctx, cfg, simulate=n) if "variants" in d]
+    if not quick:
+        docs += [d for d in gen_docs(ctx, "MC_Doc_var_struct.cfg", max_n=40000) if "variants" in d]
+    # CRLF replacement for every plain input without a backslash or a lone carriage return
+    plain = []
+    for r in plain_corpus(ctx, [(ALL_EXT, "bundled"), (0, "empty")]):
+        t = text_of(r)
+        if "\\" in t or "\r" in t or "\n" not in t:
+            continue
+        plain.append(dict(text=t, extbits=r["extbits"], conv=r["conv"], variants=dict(crlf=t.replace("\n", "\r\n")), src=r.get("src", "")))
+    pin = os.path.join(ctx.work, "var_in.ndjson")
+    pout = os.path.join(ctx.work, "var_obs.ndjson")
+    core.write_ndjson(pin, docs + plain)
+    core.run_harness(ctx, ["variants", "--in", pin, "--out", pout])
+    obs = core.read_ndjson(pout)
+    n, bad, _ = core.run_judge(ctx, "Trace_Variants", pout)
+    bad.sort(key=lambda b: len(obs[b[0] - 1]["text"]))
+    for line, kinds in bad:
+        x = obs[line - 1]
+        for k in kinds:
+            v = next(v for v in x["vars"] if v["kind"] == k)
+            ctx.violation(k, f"C17: variant '{k}' of {x['text'][:140]!r} parses differently (ext bits {x['extbits']}, {x['conv']})",
+                          dict(kind="variant", variant=k, text=x["text"], variant_text=v["text"], extbits=x["extbits"], conv=x["conv"],
+                               base=x["base"], obs=v["obs"]))
+    ctx.evaluations = sum(1 + len(x["vars"]) for x in obs)
+    ctx.nontrivial = sum(1 for x in obs for v in x["vars"] if not v["same_text"])
+    ctx.rule = ("documents written by CookDoc (random walks under the extended/canonical parser and both converters, structure "
+                "kernel) each printed by TLC in 11 variants built from the generator's own marks: CRLF; a trailing comment / "
+                "blanks / tab on every or every other Cooklang line; a block comment at every or every other item separator; "
+                "extra blank, blank-padded, comment-only or block-comment lines at every or every other block start; plus "
+                "CRLF replacement of every plain corpus input without a backslash or lone CR. "
+                "non-trivial = variant texts that differ from their base text")
+    ctx.extra["documents"] = len(docs)
+    ctx.extra["wellformed_documents"] = sum(1 for x in obs if x["wellformed"])
+    ctx.extra["plain_inputs_crlf"] = len(plain)
+    for x in obs[:3]:
+        ctx.sample(dict(base=x["text"][:200], variants={v["kind"]: v["text"][:120] for v in x["vars"][:3]}))
+    ctx.assumptions = ["TLC and the CommunityModules JSON reader are trusted", "step text is whitespace-normalised by the projection before comparison"]
+
+
+def replay_c17(ctx, case):
+    core.build_harness()
+    c = case["case"]
+    pin = os.path.join(ctx.work, "var_in.ndjson")
+    pout = os.path.join(ctx.work, "var_obs.ndjson")
+    core.write_ndjson(pin, [dict(text=c["text"], extbits=c["extbits"], conv=c["conv"], variants={c["variant"]: c["variant_text"]},
+                                 pred=dict(wellformed=True))])
+    core.run_harness(ctx, ["variants", "--in", pin, "--out", pout])
+    n, bad, _ = core.run_judge(ctx, "Trace_Variants", pout)
+    for line, kinds in bad:
+        ctx.violation("replay", f"still differs: {kinds}", dict())
+    return ctx.finish()
